@@ -24,7 +24,7 @@ DIMS = (1, 2, 3)
 def plan(tier, seed):
     shapes = [list(s) for r in (1, 2, 3) for s in itertools.product(DIMS, repeat=r)]
     p2i = [{'shape': s, 'via': v} for s in shapes for v in ('shape', 'pixel_shape')]
-    nsides = [1, 2, 4, 8, 16, 32] + ([64, 128] if tier == 'thorough' else [])
+    nsides = [1, 2, 4, 8, 16, 32, 64] + ([128] if tier == 'thorough' else [])
     hpx = []
     for ns in nsides:
         npix = 12 * ns * ns
@@ -135,6 +135,9 @@ def run(phase, cases, ctx):
                 k, nchunk = case['part']
                 pix = np.arange(npix)[k::nchunk]
                 land = HealpixLandscape(ns, 'I', D)
+                lands = [land]
+                if x64:   # a landscape storing float32 maps must still locate float64 directions exactly
+                    lands.append(HealpixLandscape(ns, 'I', jnp.float32))
                 centre = np.array(hp.pix2vec(ns, pix)).T
                 pts = [centre]
                 corners = hp.boundaries(ns, pix, step=1)  # (npix, 3, 4)
@@ -142,7 +145,13 @@ def run(phase, cases, ctx):
                     for t in (0.3, 0.6, 0.85):
                         v = centre * (1 - t) + corners[:, :, c] * t
                         pts.append(v / np.linalg.norm(v, axis=1, keepdims=True))
+                if x64:   # float64 only: points 1e-5 (relative) inside the pixel towards its corners and edge mid-points
+                    for c in range(4):
+                        for tgt in (corners[:, :, c], (corners[:, :, c] + corners[:, :, (c + 1) % 4]) / 2):
+                            v = centre * 1e-5 + tgt * (1 - 1e-5)
+                            pts.append(v / np.linalg.norm(v, axis=1, keepdims=True))
                 for j, v in enumerate(pts):
+                  for land in lands:
                     th, ph = hp.vec2ang(v)
                     got = np.asarray(land.world2index(jnp.asarray(th, D), jnp.asarray(ph, D)))
                     ref = hp.ang2pix(ns, th, ph)
